@@ -6,7 +6,7 @@
 
    Runtime, not proved (measured by the harness with tolerances): the wall-clock period of the
    ticker, "current" timestamps, the start of goroutines, which ready branch select takes. *)
-From Verif Require Import Base.Prelude Model.Heartbeat Spec.HeartbeatSpec Proofs.HeartbeatProofs.
+From Verif Require Import Base.Prelude Gen.GenConsts Model.Heartbeat Spec.HeartbeatSpec Proofs.HeartbeatProofs.
 
 (* The period of the ticker for an announced timeout t (milliseconds in the model, nanoseconds
    in the code): positive and never above the announced timeout, including the "minus two
@@ -20,10 +20,17 @@ Proof. exact period_ns_bounds. Qed.
 Print Assumptions C16_period_ns.
 
 Theorem C16_period_rule : forall t,
-  (2000 < t -> period t = t - 2000) /\ (t <= 2000 -> period t = t) /\
+  (heartbeat_threshold_ms < t -> period t = t - heartbeat_subtract_ms) /\
+  (t <= heartbeat_threshold_ms -> period t = t) /\
   period_ns (t * 1000000) = period t * 1000000.
 Proof. intros t. split; [apply period_above|split; [apply period_upto|apply period_ns_ms]]. Qed.
 Print Assumptions C16_period_rule.
+
+(* threshold and subtrahend are regenerated from spine/heartbeat_manager.go on every run
+   (Gen/GenConsts.v); on this tree: "minus 2 s above 2 s".  The bounds above are re-proved for
+   whatever the source says now: a subtrahend above the threshold breaks [consts_ok]. *)
+Example C16_period_constants_on_this_tree : heartbeat_threshold_ms = 2000 /\ heartbeat_subtract_ms = 2000.
+Proof. split; reflexivity. Qed.
 
 (* Every history and every interleaving (the schedule is part of [ops]: Call / Resume / Tick):
    the monitor accepts every step with nothing excused — no panic, strictly increasing
